@@ -9,7 +9,7 @@
    fields, existing structs; never patterns / references / close / embeddings);
    [accepts_mask] is what the check runs on the set trim.Files removed.
    Only statements, [exact], Print Assumptions. *)
-From Verif Require Import Core.Syntax Core.Eval Core.Laws Trim.Model Trim.Proofs Trim.Examples.
+From Verif Require Import Core.Syntax Core.Eval Core.Laws Core.Disj Trim.Model Trim.Proofs Trim.Examples.
 From Coq Require Import List Bool Permutation.
 Import ListNotations.
 
@@ -102,6 +102,15 @@ Theorem C20_struct_marker_not_implied_by_top :
     exists labs atoms fuel, final_value labs atoms fuel (d :: K) <> final_value labs atoms fuel K.
 Proof. exact struct_marker_not_implied_by_top. Qed.
 Print Assumptions C20_struct_marker_not_implied_by_top.
+
+(* with defaults (Core/Disj.v): "implied by a default" is not an implication - the mechanism of
+   known finding F11 (x: b: 2, x: b: *1 | int, x: b: *2 | int) *)
+Theorem C20_default_is_not_implication :
+  exists labs atoms fuel (c : expr) (d1 d2 : disj),
+    resolve (pair_of labs atoms fuel [c] [d2]) = resolve (pair_of labs atoms fuel [] [d2]) /\
+    resolve (pair_of labs atoms fuel [c] [d1; d2]) <> resolve (pair_of labs atoms fuel [] [d1; d2]).
+Proof. exact default_is_not_implication. Qed.
+Print Assumptions C20_default_is_not_implication.
 
 (* non-vacuity *)
 Example C20_ex_removes : removes P0 (keepm [false; false; true; true; true] P0).
